@@ -52,10 +52,10 @@ func selectorLabel(sel cue.Selector) string {
 		// references can point to hidden fields (`a: _hidden`)
 		return strings.TrimLeft(sel.String(), "_#")
 	}
-	// We shouldn't get anything other than non-hidden
-	// fields and definitions because we've not asked the
-	// Fields iterator for those or created them explicitly.
-	panic(fmt.Sprintf("unreachable %v", sel.Type()))
+	// We shouldn't get anything else because we've not asked the
+	// Fields iterator for those or created them explicitly, but
+	// references can point anywhere (list elements, …).
+	return sel.String()
 }
 
 // from https://github.com/cue-lang/cue/blob/99e8578ac45e5e7e6ebf25794303bc916744c0d3/encoding/openapi/build.go#L490
